@@ -2,7 +2,7 @@
    In Gallina calibrate is a function: what the theorems add is that its arguments are exactly configuration + seed
    stream, and that verbosity, the saving folder and what it held before are NOT among the things it depends on. *)
 From Coq Require Import List ZArith Bool Arith.
-From BlackIt Require Import Model.Calibrator Proofs.CalibratorP Proofs.CalibFlagsP Proofs.CalibFaultP Proofs.CalibSchedP.
+From BlackIt Require Import Model.Calibrator Proofs.CalibratorP Proofs.CalibFlagsP Proofs.CalibFaultP Proofs.CalibSchedP Proofs.CalibResumeP.
 Import ListNotations.
 
 Theorem C01_calibrate_noninterference :
@@ -36,3 +36,14 @@ Theorem C01_rows_use_consecutive_draws :
          (run Param Series LossV model lossf loss_leb rounds0 propose draws agent_actions plan ops s0).
 Proof. exact reachable_aligned. Qed.
 Print Assumptions C01_rows_use_consecutive_draws.
+
+(* Round 4.  A scheduler object handed to the constructor keeps the seeds it and its samplers were constructed with
+   (`construct` takes it as it is); the first calibrate() - the one that runs at batch index 0 - forgets them all: two
+   calibrators that differ only in the seeds carried by their sampler objects give the same result, state and return value. *)
+Theorem C01_first_calibrate_forgets_all_seeds :
+  forall Param Series LossV model lossf loss_leb rounds0 propose draws agent_actions plan n (c : core Param Series LossV) d l',
+    batch_idx _ _ _ c = 0 -> map unseeded l' = map unseeded (sched_samplers _ (sch _ _ _ c)) ->
+    calibrate Param Series LossV model lossf loss_leb rounds0 propose draws agent_actions plan n (mkSt _ _ _ (reseat _ _ _ c l') d) =
+    calibrate Param Series LossV model lossf loss_leb rounds0 propose draws agent_actions plan n (mkSt _ _ _ c d).
+Proof. exact first_calibrate_forgets_all_seeds. Qed.
+Print Assumptions C01_first_calibrate_forgets_all_seeds.
